@@ -21,4 +21,9 @@ EXTRAS = [
     lambda rep, fb, tier: st.rule_family(rep, fb),
     lambda rep, fb, tier: st.rule_clone(rep, fb),
     lambda rep, fb, tier: origin.rule_merge_regular(rep, fb),
+    lambda rep, fb, tier: st.rule_orderdep(rep, fb),
+    lambda rep, fb, tier: __import__("vf.rules.canon", fromlist=["x"]).rule_canon(rep, fb),
+    lambda rep, fb, tier: __import__("vf.rules.methodrules", fromlist=["x"]).rule_index_domain(rep, fb),
+    lambda rep, fb, tier: __import__("vf.rules.methodrules", fromlist=["x"]).rule_record_by_name(rep, fb),
+    lambda rep, fb, tier: __import__("vf.rules.methodrules", fromlist=["x"]).rule_index_content(rep, fb),
 ]
